@@ -428,7 +428,7 @@ impl HandleTable {
     }
 }
 
-fn read_node(xot: &Xot, n: Node) -> A {
+pub fn read_node(xot: &Xot, n: Node) -> A {
     match xot.value(n) {
         Value::Document => A::raw(K::Doc),
         Value::Element(e) => {
